@@ -245,7 +245,9 @@ impl Workspace {
         let mut undo = BTreeMap::new();
 
         for file in &checkpoint.files {
-            let target_path = self.root.join(&file.path);
+            // The stored record is data, not a trusted path: refuse anything that would leave the
+            // root before touching a single file.
+            let target_path = self.safe_join(Path::new(&file.path))?;
             if target_path.exists() {
                 let bytes = fs::read(&target_path)?;
                 undo.insert(file.path.clone(), Some(bytes));
